@@ -54,7 +54,7 @@ Example C13_routes_guard_inhabited :
   routes_guard ex_annot = true /\
   route_ast ex_annot =
     TUnion true [TGeneric 5 [TUnion false [TTyped 1; TSeq [(false, TTyped 2); (false, TUnion false [TLit 1; TLit 2])]];
-                             TCall [TUnion true [TTyped 1]] (TSub (TAnnot (TGeneric tuple_c [TAny]) 7))]].
+                             TCall [TUnion true [TTyped 1]] TAny]].
 Proof. exact routes_guard_inhabited. Qed.
 Print Assumptions C13_routes_guard_inhabited.
 
